@@ -36,7 +36,7 @@ def _explain(net0, t, n2=None, M=None, extra=None, opts=None, skip=()):
         if list(net0.line.index) != list(range(len(net0.line))):
             toks.append("line_index_not_0..n-1")
     if t[0] in ("cont_elem",) and len(net0.trafo3w) and (net0.switch.et == "t3").any():
-        if list(net0.trafo3w.index) != list(range(len(net0.trafo3w))):
+        if list(net0.trafo3w.index) != list(range(t[1], t[1] + len(net0.trafo3w))):
             toks.append("t3_switch_and_trafo3w_index_changes")
     if t[0] == "subnet" and (net0.switch.et == "t3").any():
         toks.append("t3_switch_in_net")
